@@ -74,7 +74,8 @@ def trouble(rng, w, o, kind):
             l = rng.choice(ls)
             hook = rng.choice(['setUp', 'tearDown'])
             if l.get(hook, 'ok') == 'ok':
-                l[hook] = {'crash': rng.choice(['exit0', 'exit3', 'kill']),
+                l[hook] = {'crash': rng.choice(['exit0', 'exit3', 'kill', 'sysexit0',
+                                                'sysexit', 'memerr']),
                            'only_child': True}
     elif kind == 'report_cut':
         force_children(rng, w, o)
